@@ -293,8 +293,23 @@ fn schema_doc(rng: &mut Rng) -> (String, Value) {
       m.insert("message".into(), json!("found $A and $B"));
     }
   }
+  if rng.chance(1, 4) {
+    m.insert("severity".into(), json!(*rng.pick(&["error", "warning", "info", "hint", "off", "off"])));
+  }
+  // which files the rule applies to (the scanned tree is `src/...`)
+  if rng.chance(1, 4) {
+    m.insert("files".into(), json!([*rng.pick(&["src/**", "**/*", "**/*.js", "src/a.js", "nothing/**", "src/[a-", ""])]));
+  }
   if rng.chance(1, 6) {
-    m.insert("severity".into(), json!(*rng.pick(&["error", "warning", "info", "hint", "off"])));
+    m.insert("ignores".into(), json!([*rng.pick(&["nothing/**", "**/b.*", "src/**", "[!", ""])]));
+  }
+  if rng.chance(1, 8) {
+    m.insert("note".into(), json!(*rng.pick(STRS)));
+    m.insert("url".into(), json!(*rng.pick(STRS)));
+    m.insert("metadata".into(), json!({"k": [1, {"x": null}], "s": *rng.pick(STRS)}));
+  }
+  if rng.chance(1, 8) {
+    m.insert("labels".into(), json!({*rng.pick(&["A", "B", "ZZ", "ARGS"]): {"style": *rng.pick(&["primary", "secondary", "nope"]), "message": *rng.pick(&["m $A", "", "$$$ARGS"])}}));
   }
   let mut doc = Value::Object(m);
   // typed wild values
